@@ -160,10 +160,12 @@ func c06run(out *evid.Out, f *evid.Flags, run int) {
 	r := rng.New(f.Seed, 0xc06, uint64(run))
 	// destination kind cycles fastest; the other parameters are decoded from the remaining digits of the run
 	// number so that no two of them are tied together
-	const nDest = 9
+	const nDest = 10
 	destKind := run % nDest // 0 plain, 1 SyncWriter(LevelWriter), 2 Multi of two, 3 ConsoleWriter literal, 4 log.Logger global, 5 NewConsoleWriter(...), 6 SyncWriter(plain io.Writer), 7 ConsoleWriter{Out: SyncWriter(...)}: SyncWriter reached through its plain Write,
 	// 8 plain recorder, but every pair of events of a worker is a "request" logged through its own short-lived
 	// TriggerLevelWriter (hold up to warn, release at error) created with Output(): the writers' buffer pool is shared
+	// 9 SyncWriter(LevelWriter) where every other worker reaches the destination through SyncWriter(SyncWriter(dest)) - a component
+	// that defensively wraps whatever writer it is handed: the destination is still entered by one call at a time
 	q := run / nDest
 	G := []int{4, 32}[q%2]
 	K := 40 + r.Intn(60)
@@ -245,7 +247,7 @@ func c06run(out *evid.Out, f *evid.Flags, run int) {
 	}
 	mkDest := func(delay int) (root io.Writer, recs []*cw6) {
 		switch destKind {
-		case 1:
+		case 1, 9:
 			a := newW6("sync", false, delay, viol)
 			return zerolog.SyncWriter(a), []*cw6{a}
 		case 2:
@@ -312,6 +314,10 @@ func c06run(out *evid.Out, f *evid.Flags, run int) {
 	// emitAll logs worker w's chains through l; for destination kind 8 two by two through a request-scoped
 	// TriggerLevelWriter in front of the logger's destination dst
 	emitAll := func(l *zerolog.Logger, dst io.Writer, w int, each func(i int, lg *zerolog.Logger, c *chain6)) {
+		if destKind == 9 && w%2 == 1 {
+			lr := l.Output(zerolog.SyncWriter(dst)) // dst is itself the result of SyncWriter
+			l = &lr
+		}
 		if destKind != 8 {
 			for i := range chains[w] {
 				each(i, l, &chains[w][i])
@@ -333,7 +339,7 @@ func c06run(out *evid.Out, f *evid.Flags, run int) {
 		capW := make([]*capture6, len(recs1))
 		var root io.Writer
 		switch destKind {
-		case 1, 6:
+		case 1, 6, 9:
 			capW[0] = &capture6{m: map[string][]byte{}}
 			root = zerolog.SyncWriter(capW[0])
 		case 2:
@@ -487,7 +493,7 @@ func c06run(out *evid.Out, f *evid.Flags, run int) {
 				viol("sampler-share", fmt.Sprintf("[%s] shared sampler (kind %d): %d of %d events delivered, expected %d", rc.name, samplerKind, admitted, sampledIssued, want))
 			}
 		}
-		if (destKind == 1 || destKind == 6 || destKind == 7) && rc.maxInfl > 1 {
+		if (destKind == 1 || destKind == 6 || destKind == 7 || destKind == 9) && rc.maxInfl > 1 {
 			viol("syncwriter-overlap", fmt.Sprintf("a writer wrapped in SyncWriter saw %d overlapping calls", rc.maxInfl))
 		}
 		if rc.maxInfl > 1 {
